@@ -37,7 +37,8 @@ MANIFEST = dict(
          'obligations on the real render_try_except / render_try_finally / Raise.render / ReturnTag.render / String.__call__: '
          'handlers consulted only for a body exception, only the chosen handler rendered with error_value bound on top, '
          'unmatched and handler/else exceptions propagate, else appended only after a clean body, finally rendered exactly '
-         'once with the pending exception continuing, DTReturn passes through try and raise and becomes the call result.',
+         'once with the pending exception continuing, DTReturn passes through try and raise and becomes the call result.'
+         ' find_handler additionally proved for handler lists of ANY length (loop invariant: no handler before the current position matches).',
     note='Trusted: pyvc, z3, CPython ast. Assumed: class graph well-founded; opaque blocks obey the stack protocol; renderings '
          'are text; StringIO/print_exc/upgradeException/convertExceptionType library contracts. find_handler per list length <= 4.',
     technique='contract-based deductive verification (pyvc symbolic execution + ghost trace obligations, z3 with quantifiers)',
